@@ -291,8 +291,31 @@ func LoginCounts(reg *prometheus.Registry) []string {
 	return out
 }
 
-// Unix returns a time the given number of seconds after the engine's clock base.
-func Unix(sec int) time.Time { return time.Unix(1700000000+int64(sec), 0) }
+var (
+	originOnce sync.Once
+	origin     time.Time
+)
+
+// Unix returns the instant that lies sec seconds after the clock origin of the run. In the engine
+// the clock is symbolic; natively the origin is chosen so that the real clock now reads what the
+// engine's first clock reading was in the replayed model (harnesses that compare clock readings
+// with Unix instants run with CLOCKSTEP=0, i.e. no time passes during a run).
+func Unix(sec int) time.Time {
+	originOnce.Do(func() {
+		mu.Lock()
+		load()
+		first := int64(0)
+		for _, n := range rf.Nondets {
+			if n.Kind == "env" {
+				first = n.Int
+				break
+			}
+		}
+		mu.Unlock()
+		origin = time.Now().Add(-time.Duration(first) * time.Second)
+	})
+	return origin.Add(time.Duration(sec) * time.Second)
+}
 
 // AssertEqStr asserts a == b (the engine first tries the cheaper sufficient condition that both
 // are the same window of one buffer).
